@@ -25,13 +25,15 @@ META = {
     "functions_under_contract": ["xgcm.grid.Grid.set_metrics", "xgcm.grid.Grid.__init__ (metrics= loop)"],
     "trusted_base": ["dataset model: ds[name].reset_coords(drop=True) yields the variable with its name and dims", "CPython executes the function as written",
                      "induction over the call history from the one-step contract (well_formed is an invariant)"],
-    "assumptions": ["pool: 5 variables on 3 positions of axis X, 2 on axis Y, 2 two-dimensional; pre-states: every ordered selection with pairwise different slots (0-3 entries per axes set); calls: 1-3 variables at pairwise different positions, overwrite True/False"],
+    "assumptions": ["pool: 5 variables on 3 positions of axis X, 2 on axis Y, 4 two-dimensional (2 positions, each in both dimension orders); pre-states: every ordered selection with pairwise different slots (0-3 entries per axes set); calls: 1-3 variables at pairwise different positions, overwrite True/False"],
 }
 
 POOL = {  # name -> (axes key, dims)
     "dx_c": (("X",), ("x_c",)), "dx_c2": (("X",), ("x_c",)), "dx_l": (("X",), ("x_l",)), "dx_l2": (("X",), ("x_l",)), "dx_o": (("X",), ("x_o",)),
     "dy_c": (("Y",), ("y_c",)), "dy_l": (("Y",), ("y_l",)),
     "a_cc": (("X", "Y"), ("x_c", "y_c")), "a_lc": (("X", "Y"), ("x_l", "y_c")),
+    # the same positions with the dimensions stored in the other order: a position is a SET of dimensions
+    "a_cc_t": (("X", "Y"), ("y_c", "x_c")), "a_lc_t": (("X", "Y"), ("y_c", "x_l")),
 }
 LAY = {"X": ("center", "left", "outer"), "Y": ("center", "left")}
 
@@ -215,4 +217,8 @@ def replay(ob):
     if v1 != want:
         fmt = lambda v: sorted((sorted(k[0]), sorted(k[1]), nm) for k, nm in v.items())  # noqa
         bad.append(f"registry afterwards {fmt(v1)}; one-at-a-time registration gives {fmt(want)}")
+    for k, lst in g._metrics.items():
+        slots = [frozenset(a.dims) for a in lst]
+        if len(set(slots)) != len(slots):
+            bad.append(f"two variables are registered for the same position of axes {sorted(k)}: {[(a.name, a.dims) for a in lst]} (a slot holds ONE variable)")
     return {"confirmed": bool(bad), "text": "\n".join(text + bad)}
